@@ -30,12 +30,85 @@ fn main() {
         Mode::Child(k) if k == "hist" => child_hist(&args),
         Mode::Child(k) if k == "conc" => child_conc(&args),
         Mode::Child(k) if k == "rdv" => child_rdv(&args),
+        Mode::Child(k) if k == "raw" => child_raw(&args),
         Mode::Child(k) => {
             eprintln!("HARNESS: unknown child kind {k}");
             std::process::exit(2)
         }
         Mode::Replay(p) => run::replay(ID, &p),
     }
+}
+
+/// Scenario for the interpreter / sanitizer layers WITHOUT any instrumentation of its own between
+/// the threads: the monitors of the other kinds (logical-clock stamps, recorder locks) are
+/// synchronisation too, and an ordering the library forgot to establish can hide behind theirs.
+/// Here the racing threads share nothing but the library: one thread creates collectors and
+/// installs the global default, the others keep emitting from callsites that are already
+/// registered (no registry lock on that path), some with scopes of their own.  The only oracle is
+/// the tool (plus: every emission arrives at most once, nothing arrives at a dropped collector).
+fn child_raw(args: &Args) {
+    let mut out = Out::new();
+    let mut rng = Rng::derive(args.seed, 0xC02E, args.shard);
+    let (arcs, ds) = mk_collectors(&mut rng, 3);
+    let fresh = Fresh::new();
+    let nreaders = 1 + rng.usize(3);
+    let rounds = args.get_u64("rounds", 12) as usize;
+    // callsites registered up front, on this thread
+    let cs: Vec<&'static vcs::Cs> = (0..3).filter_map(|_| fresh.take(1 + rng.usize(5), rng.usize(4), Kind::Event)).collect();
+    {
+        let _g = dispatch::set_default(&ds[2]);
+        for c in &cs {
+            let _ = (c.emit)(1);
+        }
+    }
+    let _ = received(&arcs);
+    let writer_sets_at = rng.usize(rounds.max(1));
+    let extra_collectors = rng.chance(1, 2);
+    std::thread::scope(|sc| {
+        for r in 0..nreaders {
+            let cs = cs.clone();
+            let ds = ds.clone();
+            let scoped = rng.chance(1, 3);
+            sc.spawn(move || {
+                for i in 0..rounds {
+                    if scoped && i % 4 == 1 {
+                        let _g = dispatch::set_default(&ds[1]);
+                        let _ = (cs[i % cs.len()].emit)(((r + 1) * 1000 + i) as u64);
+                    } else {
+                        let _ = (cs[i % cs.len()].emit)(((r + 1) * 1000 + i) as u64);
+                    }
+                    std::thread::yield_now();
+                }
+            });
+        }
+        let ds2 = ds.clone();
+        sc.spawn(move || {
+            for i in 0..rounds {
+                if i == writer_sets_at {
+                    let _ = dispatch::set_global_default(ds2[0].clone());
+                }
+                if extra_collectors && i % 3 == 0 {
+                    // a collector that comes and goes: registration republishes the max level
+                    let d = Dispatch::new(Shared(Arc::new(FilterCollector::new(90 + i as u64, Spec { thresh: 2 + i % 3, targets: 0b1111, dynamic: false, hint: Some(2 + i % 3) }, true))));
+                    drop(d);
+                }
+                std::thread::yield_now();
+            }
+        });
+    });
+    let got = received(&arcs);
+    out.evals += (nreaders * rounds) as u64;
+    out.count("raw_scenarios", 1);
+    out.count("raw_emissions", (nreaders * rounds) as u64);
+    out.count("raw_emissions_received_by_some_collector", got.len() as u64);
+    let mut seen = std::collections::HashSet::new();
+    for (k, id) in &got {
+        if !seen.insert(*id) {
+            out.violation("an emission was received twice", json!({"kind": "raw", "id": id, "collector": k}));
+        }
+    }
+    out.distinct_str(&format!("raw|r{nreaders}|x{extra_collectors}|w{}", writer_sets_at.min(3)));
+    out.emit();
 }
 
 fn parent(args: &Args) {
@@ -50,8 +123,11 @@ fn parent(args: &Args) {
     let nr = args.get_u64("rdv", args.tier.pick(64, 1280));
     let ends = run::run_children(args, &ChildSpec::new("rdv", nr).arg("rounds", args.get_u64("rounds", 20000)).timeout(300), &mut out);
     run::classify_ends(&ends, &mut out, true);
+    let nw = args.get_u64("raw", args.tier.pick(64, 640));
+    let ends = run::run_children(args, &ChildSpec::new("raw", nw).timeout(60), &mut out);
+    run::classify_ends(&ends, &mut out, true);
     let mut extra = Map::new();
-    extra.insert("child_processes".into(), json!(nh + nc + nr));
+    extra.insert("child_processes".into(), json!(nh + nc + nr + nw));
     vlib::sanlayer::run_layers(ID, args, &mut out, &mut extra);
     run::finish(
         Finish {
